@@ -1,19 +1,24 @@
 #!/bin/sh
-# dev helper: run a property's check against a seeded change applied to /repo, then undo it.
+# dev helper: run a property's check against a seeded change.
 #   tools/seed_run.sh <seed-dir> <Cnn> [tier]
+# The change is applied in a scratch worktree of /repo (VERIF_REPO), so /repo itself is
+# not touched and may be busy; outputs go to out/ as usual (evidence is restored afterwards).
 SD=$(readlink -f "$1"); P=$2; T=${3:-quick}
-git -C /repo diff --quiet || { echo "/repo is dirty"; exit 2; }
-git -C /repo apply $SD/patch.diff || exit 3
-cd /verif && ./check $P --tier $T > /tmp/seed_run_$$.log 2>&1; RC=$?
-git -C /repo checkout -- .
-echo "exit=$RC"; grep -E "^VIOLATION|^KNOWN-FINDING|quick:|thorough:" /tmp/seed_run_$$.log | cut -c1-200 | head -8
+WT=/tmp/seedrun_$$
+git -C /repo worktree add -q --detach $WT HEAD || exit 2
+git -C $WT apply $SD/patch.diff || { git -C /repo worktree remove --force $WT; exit 3; }
+cd /verif && cp evidence/$P.json /tmp/ev_$$.json 2>/dev/null
+VERIF_REPO=$WT ./check $P --tier $T > /tmp/seed_run_$$.log 2>&1; RC=$?
+cp /tmp/ev_$$.json evidence/$P.json 2>/dev/null; rm -f /tmp/ev_$$.json
+git -C /repo worktree remove --force $WT
+echo "exit=$RC"; grep -E "^VIOLATION|^KNOWN-FINDING|quick:|thorough:|^NOTE" /tmp/seed_run_$$.log | cut -c1-220 | head -8
 python3 - <<PY
-import json,glob,re
+import json,re
 for l in open('/tmp/seed_run_$$.log'):
     m=re.match(r'VIOLATION property=\S+ replay=(\S+)', l)
     if m:
         try:
-            d=json.load(open(m.group(1))); print('  what:', str(d.get('what'))[:200]); break
+            d=json.load(open(m.group(1))); print('  what:', str(d.get('what'))[:300]); print('  case:', str(d.get('case'))[:200]); break
         except Exception as e: print(e)
 PY
 rm -f /tmp/seed_run_$$.log
